@@ -52,6 +52,9 @@ def Series(params: SeriesParams) -> h.Module:
 
     # Sort out the two series ports
     series_conns = _seriesconns(m, params.conns)
+    if series_conns[0] is series_conns[1]:
+        msg = f"Series: the two series ports must differ, got {series_conns[0].name} twice"
+        raise ValueError(msg)
     if series_conns[0].width != series_conns[1].width:
         msg = f"Series: series ports {series_conns[0].name} and {series_conns[1].name} have different widths"
         raise ValueError(msg)
